@@ -20,7 +20,7 @@ structure W where
   waiting : Option (Nat × List Ds)      -- waiting_ts (with its required set)
   missing : List Ds                     -- missing_ds (a set)
   stopped : Bool
-deriving Repr
+deriving Repr, DecidableEq
 
 def W.init : W := { avail := [], waiting := none, missing := [], stopped := false }
 
